@@ -13,7 +13,7 @@ Labels (also the wire format of the Lean driver, see lean/Driver/C07.lean):
   c<t>      task t is cancelled (Task.cancel())
   m<t>      the connect-timeout timer of task t fires (asyncio.timeout._on_timeout)
   r<t>/x<t> the connection handed to task t is released to the pool / closed
-  l<c>      idle connection number c is lost (peer closed it while pooled)
+  l<c>      connection number c is lost (the peer closed it) while pooled or while in use
   C         connector._close_immediately()
   p<k0>.<k1>...  the order `random.shuffle` will give to the waiter queues from now on
   t<t>      the trace callback task t is suspended in returns
@@ -257,7 +257,7 @@ class Pool:
             if cid < len(self.transports):
                 tr = self.transports[cid]
                 idle = any(p is tr.proto for q in self.conn._conns.values() for p, _ in q)
-                if idle and not tr.closing:
+                if (idle or tr.proto in self.conn._acquired) and not tr.closing:
                     tr.closing = True
                     tr.lost = True
                     tr.proto.connection_lost(None)
@@ -409,6 +409,9 @@ class Pool:
             for p, _ in q:
                 if p.is_connected():
                     out.append(f"l{self._cid(p)}")
+        for p in self.conn._acquired:
+            if not isinstance(p, self.mod._TransportPlaceholder) and p.is_connected():
+                out.append(f"l{self._cid(p)}")
         if not self.conn._closed:
             out.append("C")
         if self.conn._cleanup_handle is not None:
@@ -427,7 +430,8 @@ class Pool:
                 per[self.keys[t]] += 1
         for t in range(len(self.tasks)):
             c = self.conn_of(t)
-            if c is not None and c._protocol is not None and c._protocol.is_connected():
+            # handed out and not yet given back (even if the peer has closed it meanwhile: the slot is the holder's)
+            if c is not None and c._protocol is not None and (c._protocol.is_connected() or not self.conn._closed):
                 per[self.keys[t]] += 1
         return sum(per), per
 
